@@ -416,4 +416,101 @@ theorem vlqLong_spec : ∀ (bs : List Nat) (k ip sh : Nat), sh = 7 * k → k ≤
           rw [hexp, e2, e4]
           simp only [Nat.add_assoc, Nat.add_comm 1 n']
 
+theorem bitReaderVlqGo_spec : ∀ (bs : List Nat) (i v sh : Nat), sh = 7 * i → i ≤ 10 → v < 2 ^ (7 * i) → v < 2 ^ 64 →
+    match uleb bs with
+    | some (val, n) =>
+      if i + n ≤ 10 then
+        ∃ w, bitReaderVlqGo i sh v bs = .ok (some (w, i + n)) ∧ w < 2 ^ 64 ∧
+          (v + val * 2 ^ (7 * i) < 2 ^ 64 → w = v + val * 2 ^ (7 * i))
+      else bitReaderVlqGo i sh v bs = .error .panic
+    | none =>
+      if 11 ≤ i + bs.length then bitReaderVlqGo i sh v bs = .error .panic
+      else bitReaderVlqGo i sh v bs = .ok none := by
+  intro bs
+  induction bs with
+  | nil => intro i v sh _ hi _ _; simp [uleb, bitReaderVlqGo]; omega
+  | cons b bs ih =>
+    intro i v sh hsh hi hv hv64
+    subst hsh
+    have hp : b % 128 < 128 := Nat.mod_lt _ (by decide)
+    simp only [uleb, bitReaderVlqGo, BITREADER_VLQ_STEP, MAX_VLQ_BYTE_LEN]
+    by_cases hi10 : i = 10
+    · subst hi10
+      have hc : 7 * 10 + 7 > 10 * 7 := by omega
+      simp only [hc, if_true]
+      by_cases hb : b < 128
+      · simp [hb]
+      · simp only [hb, if_false]
+        cases hu : uleb bs with
+        | none => simp [show 11 ≤ 10 + (bs.length + 1) by omega]
+        | some r => obtain ⟨v', n'⟩ := r; simp
+    · have hi9 : i ≤ 9 := by omega
+      have hc : ¬ (7 * i + 7 > 10 * 7) := by omega
+      simp only [hc, if_false]
+      have hst := step_lt v (b % 128) (7 * i) hv hv64 hp
+      by_cases hb : b < 128
+      · simp only [hb, if_true]
+        have : i + 1 ≤ 10 := by omega
+        simp only [this, if_true]
+        refine ⟨_, rfl, hst.2, ?_⟩
+        intro hfit
+        rw [Nat.mod_eq_of_lt hb]
+        exact step_eq _ _ _ hv (by omega) (by omega)
+      · simp only [hb, if_false]
+        have e7 : 2 ^ (7 * i + 7) = 2 ^ (7 * (i + 1)) := by congr 1
+        have ih' := ih (i + 1) (v ||| wshl64 (b % 128) (7 * i)) (7 * i + 7) (by omega) (by omega)
+          (by rw [← e7]; exact hst.1) hst.2
+        cases hu : uleb bs with
+        | none =>
+          simp only [hu] at ih' ⊢
+          have e1 : (b :: bs).length = bs.length + 1 := rfl
+          have e3 : (11 ≤ i + (bs.length + 1)) = (11 ≤ i + 1 + bs.length) := by
+            apply propext; constructor <;> intro h <;> omega
+          rw [e1]; simp only [e3]; exact ih'
+        | some r =>
+          obtain ⟨v', n'⟩ := r
+          simp only [hu] at ih' ⊢
+          have hn' := (uleb_bound _ _ _ hu).2.1
+          have e3 : (i + 1 + n' ≤ 10) = (i + (n' + 1) ≤ 10) := by
+            apply propext; constructor <;> intro h <;> omega
+          simp only [e3] at ih'
+          by_cases hle : i + (n' + 1) ≤ 10
+          · simp only [hle, if_true] at ih' ⊢
+            obtain ⟨w, hw, hw64, hval⟩ := ih'
+            have e4 : i + 1 + n' = i + (n' + 1) := by omega
+            refine ⟨w, by rw [hw, e4], hw64, ?_⟩
+            intro hfit
+            have hexp : (b % 128 + 128 * v') * 2 ^ (7 * i) = b % 128 * 2 ^ (7 * i) + v' * 2 ^ (7 * (i + 1)) := by
+              rw [pow7k, Nat.add_mul]; congr 1; rw [Nat.mul_comm 128 v', Nat.mul_assoc]
+            have hse : (v ||| wshl64 (b % 128) (7 * i)) = v + b % 128 * 2 ^ (7 * i) := by
+              apply step_eq _ _ _ hv (by omega)
+              have : b % 128 * 2 ^ (7 * i) ≤ (b % 128 + 128 * v') * 2 ^ (7 * i) := by rw [hexp]; omega
+              omega
+            rw [hval (by rw [hse]; omega), hse, hexp]; omega
+          · simp only [hle, if_false] at ih' ⊢
+            exact ih'
+
+theorem zigzag64_toInt (x : BitVec 64) : (zigzag64 x).toInt = unzigzag x.toNat := by
+  unfold zigzag64 unzigzag
+  by_cases h : x.toNat % 2 = 0
+  · have h1 : x &&& 1#64 = 0#64 := by
+      apply BitVec.eq_of_toNat_eq; simp [BitVec.toNat_and]; omega
+    rw [h1]; simp only [BitVec.neg_zero, BitVec.xor_zero, h, if_true]
+    rw [BitVec.toInt_eq_toNat_of_lt]
+    · simp [BitVec.toNat_ushiftRight, Nat.shiftRight_eq_div_pow]
+    · simp [BitVec.toNat_ushiftRight, Nat.shiftRight_eq_div_pow]; omega
+  · have h1 : x &&& 1#64 = 1#64 := by
+      apply BitVec.eq_of_toNat_eq; simp [BitVec.toNat_and]; omega
+    rw [h1]; simp only [h, if_false]
+    have h2 : -(1#64) = BitVec.allOnes 64 := by decide
+    rw [h2, BitVec.xor_allOnes, BitVec.toInt_not]
+    simp only [BitVec.toNat_ushiftRight, Nat.shiftRight_eq_div_pow]
+    have := x.isLt
+    unfold Int.bmod
+    simp only [Nat.pow_one]
+    omega
+
+theorem zigzagInt_spec (v : Nat) (h : v < 2 ^ 64) : zigzagInt v = unzigzag v := by
+  unfold zigzagInt; rw [zigzag64_toInt]; simp [BitVec.toNat_ofNat, Nat.mod_eq_of_lt h]
+
 end ArrowModel.C08
